@@ -134,6 +134,7 @@ func NewRouter(s *specification.Spec, ps []*PathItem, os []*Operation, opt Gener
 		root.Add(pi)
 	}
 	r.Routes = append(r.Routes, root.GetRoutes()...)
+	verifEmit("router", &r)
 
 	return r
 }
